@@ -54,3 +54,60 @@ package bitio
 //@   requires lrInv(br)
 //@   modifies br
 //@   ensures lrInv(br) && br.buf == old(br.buf)
+//
+// ---- C04 / C05 / C17: the boolean entropy decoder (RFC 6386 section 7.3) ----
+//
+// Range holds the true range minus one (127..254). One decoded symbol: the
+// split point is the RFC's, the bit is 1 exactly when the look-ahead value
+// reaches the split, the new range is range - split or split, renormalised by
+// the RFC's doubling loop; Bits goes down by the number of doublings. Both the
+// bit-counting form (GetBit) and the table form (GetBitAlt: kVP8Log2Range,
+// kVP8NewRange) are checked against the same specification, for every range
+// and probability. What is consumed from Value is not specified here.
+//@ pure func brInv(br *BoolReader) bool = br != nil && 0 <= br.pos && br.pos <= len(br.buf) && 127 <= br.Range && br.Range <= 254 && -8 <= br.Bits && br.Bits <= 64
+//
+//@ func NewBoolReader
+//@   property C04 C05 C17
+//@   modifies nothing
+//@   ensures brInv(result) && fresh(result) && result.Range == 254
+//
+//@ func (br *BoolReader) loadFinalBytes
+//@   property C05 C17
+//@   requires brInv(br) && br.Bits < 0
+//@   modifies br
+//@   ensures brInv(br) && br.buf == old(br.buf) && br.Range == old(br.Range) && br.pos >= old(br.pos) && br.Bits >= 0
+//@   ensures old(br.pos) >= len(old(br.buf)) ==> br.eof
+//@   ensures old(br.pos) < len(old(br.buf)) ==> br.pos == old(br.pos) + 1 && br.eof == old(br.eof)
+//
+//@ func (br *BoolReader) loadNewBytes
+//@   property C05 C17
+//@   requires brInv(br) && br.Bits < 0
+//@   modifies br
+//@   ensures brInv(br) && br.buf == old(br.buf) && br.Range == old(br.Range) && br.pos >= old(br.pos) && br.Bits >= 0
+//@   ensures old(br.pos) >= len(old(br.buf)) ==> br.eof
+//
+//@ func (br *BoolReader) GetBit
+//@   property C04 C05 C17
+//@   requires brInv(br)
+//@   modifies br
+//@   ensures brInv(br) && br.buf == old(br.buf) && (result == 0 || result == 1)
+//@   ensures br.Range + 1 == specNormRange(specBoolRange(old(br.Range) + 1, prob, result == 1))
+//@   ensures old(br.Bits) >= 0 ==> (result == 1 <==> uint32(old(br.Value) >> uint(old(br.Bits))) >= specBoolSplit(old(br.Range) + 1, prob))
+//@   ensures old(br.Bits) >= 0 && result == 0 ==> br.Value == old(br.Value)
+//@   ensures old(br.Bits) >= 0 && result == 1 ==> br.Value == old(br.Value) - (uint64(specBoolSplit(old(br.Range) + 1, prob)) << uint(old(br.Bits)))
+//@   ensures old(br.Bits) >= 0 ==> old(br.Bits) == br.Bits + specNormShift(specBoolRange(old(br.Range) + 1, prob, result == 1))
+//
+//@ func (br *BoolReader) GetBitAlt
+//@   property C04 C05
+//@   requires brInv(br)
+//@   modifies br
+//@   ensures brInv(br) && br.buf == old(br.buf) && (result == 0 || result == 1)
+//@   ensures br.Range + 1 == specNormRange(specBoolRange(old(br.Range) + 1, prob, result == 1))
+//@   ensures old(br.Bits) >= 0 ==> old(br.Bits) == br.Bits + specNormShift(specBoolRange(old(br.Range) + 1, prob, result == 1))
+//@   ensures old(br.Bits) >= 0 ==> (result == 1 <==> uint32(old(br.Value) >> uint(old(br.Bits))) >= specBoolSplit(old(br.Range) + 1, prob))
+//
+//@ func (br *BoolReader) EOF
+//@   property C17 C05
+//@   requires br != nil
+//@   modifies nothing
+//@   ensures result == br.eof
